@@ -377,6 +377,15 @@ inline bool do_decode_resize(std::vector<T>& v, const uint8_t*& pos, const uint8
     {
         return false;
     }
+    if (max == ~size_t())
+    {
+        /// unlimited count: every element occupies at least one byte of what is left to decode
+        const size_t min_element_size = (codec_traits<T>::size > 0) ? size_t(codec_traits<T>::size) : 1;
+        if (size_t(n) > size_t(end - pos) / min_element_size)
+        {
+            return false;
+        }
+    }
     v.resize(n);
     return true;
 }
